@@ -57,6 +57,9 @@ type kvElection struct {
 	ctx    context.Context
 	cancel context.CancelFunc
 
+	// termCancel ends the context handed to OnPromote for the current term.
+	termCancel context.CancelFunc
+
 	onPromote func(ctx context.Context, token string)
 	onDemote  func()
 
@@ -430,6 +433,13 @@ func (e *kvElection) becomeLeader(token string, rev uint64) {
 				zap.String("token", token),
 			)...,
 		)
+		// The promotion context lives as long as the term: it is cancelled by
+		// becomeFollower, and by Stop through its parent.
+		if e.termCancel != nil {
+			e.termCancel()
+		}
+		termCtx, termCancel := context.WithCancel(e.ctx)
+		e.termCancel = termCancel
 		e.wg.Add(1)
 		go func() {
 			defer e.wg.Done()
@@ -443,7 +453,7 @@ func (e *kvElection) becomeLeader(token string, rev uint64) {
 					)
 				}
 			}()
-			promoteCtx, cancel := context.WithCancel(e.ctx)
+			promoteCtx, cancel := context.WithCancel(termCtx)
 			defer cancel()
 			e.onPromote(promoteCtx, token)
 		}()
@@ -526,6 +536,10 @@ func (e *kvElection) becomeFollower() bool {
 	e.isLeader.Store(false)
 	e.state.Store(StateFollower)
 	e.lastTransition.Store(time.Now())
+	if e.termCancel != nil {
+		e.termCancel()
+		e.termCancel = nil
+	}
 
 	if wasLeader {
 		e.recordLeaderDuration()
